@@ -520,27 +520,47 @@ func constructorDomain(p *Program, fn *ssa.Function, b *ssa.BasicBlock) (string,
 		}
 		n := 0
 		var bad []string
-		for _, cs := range p.CallSitesOf(fn) {
-			if p.inTestFile(cs.Parent()) {
-				continue
-			}
-			n++
-			arg := cs.Common().Args[idx]
-			switch a := arg.(type) {
-			case *ssa.MakeInterface:
-				if !handled[a.X.Type().String()] {
-					bad = append(bad, fmt.Sprintf("%s passes a %s at %s", shortName(cs.Parent()), a.X.Type(), p.InstrPos(cs)))
+		var checkSites func(callee *ssa.Function, idx int, depth int)
+		checkSites = func(callee *ssa.Function, idx int, depth int) {
+			for _, cs := range p.CallSitesOf(callee) {
+				if p.inTestFile(cs.Parent()) {
+					continue
 				}
-			case *ssa.Const:
-				if !(a.IsNil() && nilHandled) {
-					bad = append(bad, fmt.Sprintf("%s passes %s at %s", shortName(cs.Parent()), a, p.InstrPos(cs)))
+				n++
+				arg := cs.Common().Args[idx]
+				switch a := arg.(type) {
+				case *ssa.MakeInterface:
+					if !handled[a.X.Type().String()] {
+						bad = append(bad, fmt.Sprintf("%s passes a %s at %s", shortName(cs.Parent()), a.X.Type(), p.InstrPos(cs)))
+					}
+					continue
+				case *ssa.Const:
+					if !(a.IsNil() && nilHandled) {
+						bad = append(bad, fmt.Sprintf("%s passes %s at %s", shortName(cs.Parent()), a, p.InstrPos(cs)))
+					}
+					continue
+				case *ssa.Parameter:
+					// a wrapper that hands its own parameter on: the domain is that of the wrapper's call sites
+					g := cs.Parent()
+					if depth < 2 && p.InModule(g) && g.Parent() == nil {
+						j := -1
+						for i, q := range g.Params {
+							if q == a {
+								j = i
+							}
+						}
+						if j >= 0 && len(p.CallSitesOf(g)) > 0 {
+							checkSites(g, j, depth+1)
+							continue
+						}
+					}
 				}
-			default:
 				if why, ok := jsonShaped(p, cs.Parent(), fn, arg, 0); !ok {
 					bad = append(bad, fmt.Sprintf("%s passes an interface value at %s: %s", shortName(cs.Parent()), p.InstrPos(cs), why))
 				}
 			}
 		}
+		checkSites(fn, idx, 0)
 		if n == 0 {
 			return "no call site of " + shortName(fn) + " resolved", false, true
 		}
